@@ -68,5 +68,25 @@ def build():
     m = re.search(r'let result = loop \{.*?\};\s*let _ = thread_state\.conn\.shutdown\(Shutdown::Both\);\s*result', sd, re.S)
     u.scan(["C16"], "daemon_thread_shuts_socket_on_every_exit", bool(m) and "handler.handle_request()" in sd,
            "the daemon thread shuts the socket down (both directions) after the serving loop on every exit, then returns the loop's result: the peer observes end-of-stream whenever serving stops")
+    sv = strip(lib.fn_body("serve", within=span))
+    def depth0_positions(text, needle):
+        out, depth = [], 0
+        i = 0
+        while i < len(text):
+            c = text[i]
+            if c in '{(':
+                depth += 1
+            elif c in '})':
+                depth -= 1
+            elif depth == 0 and text.startswith(needle, i):
+                out.append(i)
+            i += 1
+        return out
+    # `self.handler.lock().unwrap().send_exit_event();` as a statement of the function body itself: the needle starts at depth 0
+    ex = depth0_positions(sv, "self.handler.lock().unwrap().send_exit_event()")
+    wpos = sv.find(".wait()")
+    between = sv[wpos:ex[0]] if (ex and wpos >= 0 and wpos < ex[0]) else "?"
+    u.scan(["C16"], "serve_raises_exit_events_unconditionally", len(ex) == 1 and wpos >= 0 and "?" not in between and "return" not in between,
+           "serve(): after wait() returns - whatever it returns - every worker's exit event is raised by a statement of the function body itself (not inside a closure, branch or match arm), with no early exit in between")
     u.raw("fn main() {}\n} // verus!")
     return u
